@@ -31,8 +31,9 @@ TIERS = {
     "C14": {"quick": (98 * 2 + 60, 400, 16), "thorough": (98 * 2 + 3000, 400, 16)},
     "C15": {"quick": (128, 14, 16), "thorough": (5000, 30, 16)},
     "C05": {"quick": (128, 10, 16), "thorough": (5000, 24, 16)},
+    "C13": {"quick": (128, 10, 16), "thorough": (5000, 24, 16)},
 }
-LEVEL = {"C01": "exploration", "C16": "exploration", "C14": "fault_enumeration", "C15": "fault_enumeration", "C05": "exploration"}
+LEVEL = {"C01": "exploration", "C16": "exploration", "C14": "fault_enumeration", "C15": "fault_enumeration", "C05": "exploration", "C13": "exploration"}
 WORKER_TIMEOUT = {"quick": 900, "thorough": 4 * 3600}
 
 
